@@ -1,10 +1,15 @@
 package gofakes3
 
 import (
+	"bytes"
 	"io"
 	"io/ioutil"
 	"strconv"
 )
+
+// readAllPreallocLimit is the largest buffer ReadAll allocates before it has
+// seen any data.
+const readAllPreallocLimit = 64 << 20
 
 func parseClampedInt(in string, defaultValue, min, max int64) (int64, error) {
 	var v int64
@@ -35,17 +40,36 @@ func parseClampedInt(in string, defaultValue, min, max int64) (int64, error) {
 // It also reports S3-specific errors in certain conditions, like
 // ErrIncompleteBody.
 func ReadAll(r io.Reader, size int64) (b []byte, err error) {
-	var n int
-	b = make([]byte, size)
-	n, err = io.ReadFull(r, b)
-	if err == io.ErrUnexpectedEOF {
+	if size < 0 {
 		return nil, ErrIncompleteBody
-	} else if err != nil {
-		return nil, err
 	}
 
-	if n != int(size) {
-		return nil, ErrIncompleteBody
+	if size > readAllPreallocLimit {
+		// The size is whatever the client declared. Beyond a sane limit the
+		// buffer grows as the data actually arrives: allocating 100GB up front
+		// because a header says so takes the whole process down.
+		var buf bytes.Buffer
+		n, err := io.Copy(&buf, io.LimitReader(r, size))
+		if err != nil {
+			return nil, err
+		} else if n != size {
+			return nil, ErrIncompleteBody
+		}
+		b = buf.Bytes()
+
+	} else {
+		var n int
+		b = make([]byte, size)
+		n, err = io.ReadFull(r, b)
+		if err == io.ErrUnexpectedEOF {
+			return nil, ErrIncompleteBody
+		} else if err != nil {
+			return nil, err
+		}
+
+		if n != int(size) {
+			return nil, ErrIncompleteBody
+		}
 	}
 
 	if extra, err := ioutil.ReadAll(r); err != nil {
